@@ -1,4 +1,4 @@
-import SafeNet.Proofs.Store
+import SafeNet.Proofs.StoreSchedule
 /-!
 # C01 — validated records read back byte-exact from a node's store
 
@@ -58,6 +58,133 @@ theorem settledListedReadable_false : ¬ SettledListedReadable := by
   rw [w.2.2.2.1] at this
   exact absurd this (by decide)
 
+/-! ## Settled read-back under `NoRemoveWhileInFlight`
+
+`lastEvent cfg dist ops k` is the last store-changing event on `k` in the history: `some (v, rt, i)` when it
+is an accepted `put_verified k v rt` (a write task, id `i`, was spawned), `none` when it is a removal
+(explicit `remove`, eviction by `prune_records_if_needed`, clean-up — a delete task was spawned) or when
+`k` was never stored.  Refused puts and puts answered by the cache-equality early return spawn nothing
+and are no events.  `NoRemoveWhileInFlight` (the named hypothesis; without it K-a refutes the statement):
+no step removes a key while a write or a notification of that key is pending, and the node does not stop. -/
+
+/-- **Settled read-back.** For every history and every legal schedule satisfying `NoRemoveWhileInFlight`,
+and every key with nothing pending (no write, delete or notification of `k`; tasks of *other* keys may
+still be pending in any order): if the last store-changing event on `k` is an accepted put of `v` with
+type `rt`, then `get k` returns exactly `v`, `k` is listed with `rt` and its file holds `v`; if it is a
+removal (or `k` was never stored), `k` is not readable, not listed and has no file. -/
+theorem settled_readback (cfg : Cfg) (dist : Nat → Nat) (ops : List Op)
+    (hn : NoRemoveWhileInFlight cfg dist (init cfg dist) ops) (k : Nat) (hq : KeyQuiet (run cfg dist ops) k) :
+    match lastEvent cfg dist ops k with
+    | some (v, rt, _) =>
+      get cfg (run cfg dist ops) k = some (.whole v) ∧ lookup k (run cfg dist ops).index = some rt ∧
+        lookup k (run cfg dist ops).disk = some (.full v)
+    | none =>
+      get cfg (run cfg dist ops) k = none ∧ lookup k (run cfg dist ops).index = none ∧
+        lookup k (run cfg dist ops).disk = none :=
+  (KeyInv.run cfg dist ops hn).readback cfg k hq
+
+theorem keyQuiet_of_settled {s : St} (h : Settled s) (k : Nat) : KeyQuiet s k := by
+  obtain ⟨ht, hn⟩ := h
+  refine ⟨?_, ?_, ?_⟩
+  · rintro ⟨i, v, rt, hm⟩; rw [ht] at hm; cases hm
+  · rintro ⟨i, rt, hm⟩; rw [hn] at hm; cases hm
+  · rintro ⟨j, hm⟩; rw [ht] at hm; cases hm
+
+/-- `settled_readback` for a settled store (nothing in flight at all): every key at once. -/
+theorem settled_readback_all (cfg : Cfg) (dist : Nat → Nat) (ops : List Op)
+    (hn : NoRemoveWhileInFlight cfg dist (init cfg dist) ops) (hs : Settled (run cfg dist ops)) (k : Nat) :
+    match lastEvent cfg dist ops k with
+    | some (v, rt, _) =>
+      get cfg (run cfg dist ops) k = some (.whole v) ∧ lookup k (run cfg dist ops).index = some rt
+    | none => get cfg (run cfg dist ops) k = none ∧ contains (run cfg dist ops) k = false := by
+  have h := settled_readback cfg dist ops hn k (keyQuiet_of_settled hs k)
+  cases hw : lastEvent cfg dist ops k with
+  | none => rw [hw] at h; exact ⟨h.1, by simp [contains, h.2.1]⟩
+  | some p => obtain ⟨v, rt, i⟩ := p; rw [hw] at h; exact ⟨h.1, h.2.1⟩
+
+/-! ## Schedule independence
+
+Two histories are *schedules of the same operation list* when they have the same store operations
+(`storeOps`: everything except `run` / `deliver`) — they differ only in when spawned tasks complete and
+when notifications are handled.  -/
+
+/-- The unrestricted statement: two legal schedules of the same operation list, both settled, both without a
+removal in flight, list the same keys. -/
+def ScheduleIndependent : Prop :=
+  ∀ (cfg : Cfg) (dist : Nat → Nat) (ops1 ops2 : List Op), storeOps ops1 = storeOps ops2 →
+    NoRemoveWhileInFlight cfg dist (init cfg dist) ops1 → NoRemoveWhileInFlight cfg dist (init cfg dist) ops2 →
+    Settled (run cfg dist ops1) → Settled (run cfg dist ops2) →
+    ∀ k, contains (run cfg dist ops1) k = contains (run cfg dist ops2) k
+
+def ackedOps : List Op :=
+  [.run 0, .put 1 3 .chunk, .run 1, .deliver 1, .put 2 6 .chunk, .run 2, .deliver 2,
+   .put 3 9 .chunk, .run 3, .deliver 3]
+def burstOps : List Op :=
+  [.run 0, .put 1 3 .chunk, .put 2 6 .chunk, .put 3 9 .chunk, .run 1, .run 2, .run 3,
+   .deliver 1, .deliver 2, .deliver 3]
+
+/-- At capacity the settled state depends on the schedule (the mechanism of K-h): capacity 2, three puts;
+acknowledged one by one the third put is refused (key 3 is the farthest), as a burst all three are
+accepted and listed. Same store operations, both settled, no removal in flight in either. -/
+theorem schedule_dependent_at_capacity_witness :
+    let cfg := Cfg.shipped 2 5
+    let d : Nat → Nat := fun k => k
+    storeOps ackedOps = storeOps burstOps ∧
+    nrwifB cfg d (init cfg d) ackedOps = true ∧ nrwifB cfg d (init cfg d) burstOps = true ∧
+    (run cfg d ackedOps).tasks = [] ∧ (run cfg d ackedOps).notes = [] ∧
+    (run cfg d burstOps).tasks = [] ∧ (run cfg d burstOps).notes = [] ∧
+    contains (run cfg d ackedOps) 3 = false ∧ contains (run cfg d burstOps) 3 = true := by
+  decide
+
+theorem scheduleIndependent_false : ¬ ScheduleIndependent := by
+  intro h
+  have w := schedule_dependent_at_capacity_witness
+  simp only at w
+  obtain ⟨w1, w2, w3, w4, w5, w6, w7, w8, w9⟩ := w
+  have := h (Cfg.shipped 2 5) (fun k => k) ackedOps burstOps w1 (nrwifB_sound _ _ _ _ w2) (nrwifB_sound _ _ _ _ w3)
+    ⟨w4, w5⟩ ⟨w6, w7⟩ 3
+  rw [w8, w9] at this
+  exact absurd this (by decide)
+
+/-- **Schedule independence (partial).** Missing hypothesis of the full statement: `BelowCapacity` — every put
+finds fewer than `max_records` records listed and no clean-up applies, in both schedules (at capacity the
+accept / evict decision depends on which notifications have been handled, see the witness above).
+Then any two legal schedules of the same operation list that remove nothing in flight agree on every key
+that has nothing pending in either: same read result, same listing, same file. -/
+theorem schedule_independent_partial (cfg : Cfg) (dist : Nat → Nat) (ops1 ops2 : List Op)
+    (hsame : storeOps ops1 = storeOps ops2)
+    (hn1 : NoRemoveWhileInFlight cfg dist (init cfg dist) ops1)
+    (hn2 : NoRemoveWhileInFlight cfg dist (init cfg dist) ops2)
+    (hb1 : BelowCapacity cfg dist (init cfg dist) ops1) (hb2 : BelowCapacity cfg dist (init cfg dist) ops2)
+    (k : Nat) (hq1 : KeyQuiet (run cfg dist ops1) k) (hq2 : KeyQuiet (run cfg dist ops2) k) :
+    get cfg (run cfg dist ops1) k = get cfg (run cfg dist ops2) k ∧
+    lookup k (run cfg dist ops1).index = lookup k (run cfg dist ops2).index ∧
+    lookup k (run cfg dist ops1).disk = lookup k (run cfg dist ops2).disk := by
+  have he := lastEvent_schedule_independent cfg dist ops1 ops2 hsame hb1 hb2
+  have h1 := settled_readback cfg dist ops1 hn1 k hq1
+  have h2 := settled_readback cfg dist ops2 hn2 k hq2
+  rw [he] at h1
+  cases hw : lastEvent cfg dist ops2 k with
+  | none =>
+    rw [hw] at h1 h2
+    exact ⟨h1.1.trans h2.1.symm, h1.2.1.trans h2.2.1.symm, h1.2.2.trans h2.2.2.symm⟩
+  | some p =>
+    obtain ⟨v, rt, i⟩ := p
+    rw [hw] at h1 h2
+    exact ⟨h1.1.trans h2.1.symm, h1.2.1.trans h2.2.1.symm, h1.2.2.trans h2.2.2.symm⟩
+
+/-- non-vacuity of `schedule_independent_partial`: two interleavings of the same three store operations
+below capacity (one completes the tasks of different keys out of spawn order), both satisfying the
+hypotheses -/
+example :
+    let cfg := Cfg.shipped 4 2
+    let d : Nat → Nat := fun k => k
+    let a : List Op := [.put 1 3 .chunk, .put 2 6 .chunk, .run 1, .deliver 1, .run 2, .deliver 2, .remove 1, .run 3, .run 0]
+    let b : List Op := [.put 1 3 .chunk, .run 0, .put 2 6 .chunk, .run 2, .run 1, .deliver 2, .deliver 1, .remove 1, .run 3]
+    storeOps a = storeOps b ∧ nrwifB cfg d (init cfg d) a = true ∧ nrwifB cfg d (init cfg d) b = true ∧
+      (run cfg d a).tasks = [] ∧ (run cfg d b).tasks = [] ∧ get cfg (run cfg d a) 2 = some (.whole 6) := by
+  decide
+
 /-- non-vacuity: three keys at capacity 2 with an overwrite (key 1), an eviction (key 3 is the farthest
 when key 2 arrives) and a removal (key 2), under a schedule that completes the tasks of different keys
 out of spawn order; settled at the end: key 1 reads back its latest value, keys 2 and 3 are gone. -/
@@ -72,7 +199,27 @@ example :
       s.index = [(1, .chunk)] ∧ keys s.disk = [1] := by
   decide
 
+/-- the history of the example above satisfies `NoRemoveWhileInFlight` (key 3 is evicted and key 2 removed
+only after their notifications were handled), and its last events are: key 1 ↦ put of 6, keys 2, 3 ↦ removal -/
+example :
+    let cfg := Cfg.shipped 2 1
+    let ops : List Op :=
+      [.put 1 3 .chunk, .put 3 9 .chunk, .run 2, .run 0, .run 1, .deliver 2, .deliver 1,
+       .put 2 12 .chunk, .put 1 6 .chunk, .run 5, .run 4, .run 3, .deliver 5, .deliver 4, .remove 2, .run 6]
+    NoRemoveWhileInFlight cfg (fun k => k) (init cfg (fun k => k)) ops ∧
+      lastEvent cfg (fun k => k) ops 1 = some (6, .chunk, 5) ∧ lastEvent cfg (fun k => k) ops 2 = none ∧
+      lastEvent cfg (fun k => k) ops 3 = none :=
+  ⟨nrwifB_sound _ _ _ _ (by decide), by decide, by decide, by decide⟩
+
+/-- K-a's history violates the hypothesis: key 1 is removed while its overwrite is in flight -/
+example : nrwifB (Cfg.shipped 4 2) (fun k => k) (init (Cfg.shipped 4 2) (fun k => k)) danglingOps = false := by decide
+
 #print axioms SafeNet.Props.C01.get_sound
+#print axioms SafeNet.Props.C01.settled_readback
+#print axioms SafeNet.Props.C01.settled_readback_all
+#print axioms SafeNet.Props.C01.schedule_independent_partial
+#print axioms SafeNet.Props.C01.schedule_dependent_at_capacity_witness
+#print axioms SafeNet.Props.C01.scheduleIndependent_false
 #print axioms SafeNet.Props.C01.get_sound_shipped
 #print axioms SafeNet.Props.C01.dangling_index_witness
 #print axioms SafeNet.Props.C01.settledListedReadable_false
